@@ -182,6 +182,8 @@ pub struct World {
     pub op_bytes: usize,
     pub frozen: bool,
     pub watchdog_tripped: bool,
+    /// How many operations of this case hit the I/O budget.
+    pub watchdog_trips: u32,
     pub clock_spin: bool,
     /// see `BrokerAct::WakeDelay`
     pub wake_delay_us: u64,
@@ -205,6 +207,7 @@ impl World {
             op_bytes: 0,
             frozen: false,
             watchdog_tripped: false,
+            watchdog_trips: 0,
             clock_spin: false,
             slow_write_done: false,
             wake_delay_us: 0,
@@ -642,6 +645,7 @@ impl World {
         if self.op_calls > self.budget_calls || self.op_bytes > self.budget_bytes {
             self.frozen = true;
             self.watchdog_tripped = true;
+            self.watchdog_trips += 1;
             self.ev(Ev::Watchdog);
             self.pend_why = Some(PendWhy::Frozen);
             return Some(IoAns::Pending(PendWhy::Frozen));
